@@ -5,9 +5,10 @@
     (and everything outside all domains does); every block of an enabled domain is stepped exactly once on the
     pre-edge values; domains do not interfere (the characterisation is pointwise per block);
   * ClockDriverSimulator.clockAll and GatedClock.propagate (leaf).
-The clause on the OUTPUT wires of gated blocks (unchanged across a disabled edge) needs that only wires of stepped
-blocks are pending at settle time; that membership argument is not discharged (see DESIGN) and is covered by the
-bounded stand-in on real gated designs."""
+The clause on the OUTPUT wires of gated blocks (unchanged across a disabled edge) is part of the _clk_cycle contract:
+only wires of stepped blocks are pending at settle time (clockAll: every newly pending wire is driven by a block of
+that domain), so the wires of a gated-off block pass Wire.settleAll and the propagate() loop unchanged.  The bounded
+stand-in on real gated designs remains as a cross-check."""
 import random, time
 from pvc import run, work, leaf as L
 from props import common
@@ -68,7 +69,8 @@ def main(tier, seed, only=None):
     res = run.run_items(items)
     return run.finish(PROP, tier, res, t0, level='proof', seed=seed,
                       functions=['py4hw/base.py::getObjectClockDriver', 'py4hw/simulation.py::Simulator._clk_cycle', 'py4hw/simulation.py::ClockDriverSimulator.clockAll', L.LEAVES[('GatedClock', 'propagate')].qual],
-                      assumptions=['abstract clock contract for obj.clock() as in C05', 'termination of the getObjectClockDriver recursion: measure depth stated, decrease obligation not generated',
+                      assumptions=['abstract clock contract for obj.clock() as in C05 (it prepares only wires it drives)',
+                                   'output-wire clause: proved in _clk_cycle -- every pending wire at settle time was prepared by a stepped block (clockAll: new pending wires belong to blocks of that domain), so a wire driven by a sequential block that was not stepped (gated-off domain) is not pending, keeps its value through Wire.settleAll, and is not written by the propagate() calls that follow (blocks that are also in the propagatables list are excluded from the clause)', 'termination of the getObjectClockDriver recursion: measure depth stated, decrease obligation not generated',
                                    'registration of a block under exactly the driver getObjectClockDriver returns happens in the first loop of topologicalSort (frames assumed, not proved)',
                                    common.dropped_note()],
                       bounded_parts=[{'what': 'real two-domain designs (enable from an input; enable derived from a register inside the gated domain; driver placed on an ancestor) against a Python reference, including the output-wire clause', 'cycles_per_variant': 100 if tier == 'quick' else 1000}],
